@@ -394,3 +394,48 @@ def rule_shift_class(chk, A):
         chk.ob(R, inst, worst is None, loc=emit.loc(i), detail=worst[2] if worst else "", key="shiftclass|" + "+".join(r[5:] for r in regs))
     chk.floor(R + ":sites", n, 4)
     chk.floor(R + ":rows", nrows, 10)
+
+
+def rule_sibling_checks(chk, A):
+    """locals computed from the same operand-shape expression inside one encoding case are range-tested alike"""
+    import collections
+    R = "R-SIBLING-RANGE-CHECK"
+    chk.rule(R, "a64 _emit: within one encoding case, integer locals initialised by the same expression over an operand's reg_type() / "
+                "element_type() are either all compared in a branch condition or none is: a branch that packs the value its sibling "
+                "range-tests accepts the register shapes the sibling rejects")
+    emit, regions = A["emit"], A["regions"]
+    groups = collections.defaultdict(list)
+    for i, x in emit.ex.items():
+        if x["k"] == "decl":
+            for v in x["vars"]:
+                if v.get("init") and v["ty"] in ("uint32_t", "uint64_t", "size_t"):
+                    t = re.sub(r"\s+", "", emit.text(v["init"]))
+                    if "reg_type" in t or "element_type" in t:
+                        reg = tuple(sorted(r for r in regions.group_of_line(x["l"]) if r.startswith("case:")))
+                        if reg:
+                            groups[(reg, t)].append((v["did"], v["name"], i))
+    compared = set()
+    for b in emit.blocks.values():
+        t = b.get("term")
+        if t and t.get("cond"):
+            for j in emit.walk(t["cond"]):
+                y = emit.e(j)
+                if y and y["k"] == "binop" and y["op"] in ("<", "<=", ">", ">=", "==", "!="):
+                    for s_ in (y["lhs"], y["rhs"]):
+                        for jj in emit.walk(s_):
+                            z = emit.e(jj)
+                            if z and z["k"] == "ref" and z.get("dk") == "local":
+                                compared.add(z["did"])
+    n = 0
+    for (reg, t), lst in sorted(groups.items()):
+        if len(lst) < 2:
+            continue
+        n += 1
+        flags = [d in compared for d, _, _ in lst]
+        odd = [(nm, emit.line_of(i)) for (d, nm, i), f in zip(lst, flags) if not f]
+        good = [(nm, emit.line_of(i)) for (d, nm, i), f in zip(lst, flags) if f]
+        ok = not (any(flags) and not all(flags))
+        chk.ob(R, "%s|%s" % ("+".join(r[5:] for r in reg), t[:60]), ok, loc="%s:%d" % (UNIT, odd[0][1] if odd else emit.line_of(lst[0][2])),
+               detail="`%s` is range-tested where it is computed at line(s) %s but used untested at line(s) %s of the same case" %
+                      (t[:70], ",".join(str(l) for _, l in good), ",".join(str(l) for _, l in odd)), key="siblingcheck|%s|%s" % (reg[0][5:], t[:60]))
+    chk.floor(R + ":groups", n, 2)
